@@ -80,6 +80,13 @@ def images(shape=0):
         m.add("Client", "x86_64", u)
         m.add("Client", "ppc64le", image(m, path="Client/ppc64le/images/disk.qcow2", itype="qcow2", fmt="qcow2", arch="ppc64le",
                                           subvariant="Cloud"))
+    if shape == 3:
+        # near-twins filed under DIFFERENT arch keys: images that differ in exactly one identifying attribute (here: the
+        # aarch64 dvd and the x86_64 dvd of every shape)
+        m.add("Server", "aarch64", image(m, path="Server/aarch64/iso/dvd.iso", itype="dvd", arch="aarch64", sums={"sha256": "1" * 64}))
+        # source media: filed under every binary arch; disc 1 listed under x86_64, disc 2 under aarch64
+        m.add("Server", "x86_64", image(m, path="Server/source/iso/src1.iso", itype="dvd", arch="src", disc=1, sums={"sha256": "3" * 64}))
+        m.add("Server", "aarch64", image(m, path="Server/source/iso/src2.iso", itype="dvd", arch="src", disc=2, sums={"sha256": "4" * 64}))
     return m
 
 
@@ -170,7 +177,7 @@ def discinfo(shape=0):
     return d
 
 
-NSHAPES = {"composeinfo": 3, "images": 3, "rpms": 2, "modules": 2, "extra_files": 2, "treeinfo": 4, "discinfo": 2}
+NSHAPES = {"composeinfo": 3, "images": 4, "rpms": 2, "modules": 2, "extra_files": 2, "treeinfo": 4, "discinfo": 2}
 
 
 def build(fmt, shape=0):
